@@ -53,6 +53,7 @@ def run(ctx):
         "thread interleavings are out of scope (the CRC singletons are re-initialised per call, not locked)",
     ]
     ctx.rule("shared/no-inplace-mutation", "no function mutates a class-level / module-level mutable object, a mutable default value or a cached result in place")
+    ctx.rule("shared/cached-result-handed-out", "a memoised (lru_cache / cache) function's mutable result is process-lifetime state: no encode / decode / check entry point hands that object to its caller — every caller would receive, and could change, the one object all later calls return")
     ctx.rule("shared/crc-reset-before-use", "the shared CRC calculator singletons: calculate_checksum re-initialises every field that update / digest write, from configuration only, before it feeds data")
     ctx.rule("shared/diagnostic-flag", "a class attribute re-bound at run time is read only as the test of an `if` whose body is diagnostic output")
     ctx.rule("defaults/inventory", "every mutable default argument of the library: the object is never mutated in place, neither directly nor through the field it is stored in")
@@ -78,6 +79,7 @@ def run(ctx):
         raise AnalysisError(f"only {len(eff.funcs)} functions parsed — the library was not read completely")
 
     shared_rules(ctx, repo, eff)
+    cached_result_rules(ctx, repo, eff)
     args_rules(ctx, repo, eff)
     self_rules(ctx, repo, eff)
     time_rules(ctx, repo, eff)
@@ -475,6 +477,31 @@ def diagnostic_flag_rule(ctx, repo, eff, origin, ev):
     return not bad and reads > 0, "; ".join(bad[:3]) or f"{reads} reads, each the test of an `if` that only prints"
 
 
+def cached_result_rules(ctx, repo, eff):
+    n = 0
+    by_q = {f.qualname: f for f in eff.funcs}
+    for gq in sorted(eff.cached):
+        g = by_q.get(gq)
+        if g is None:
+            continue
+        n += 1
+        gs = eff.summ[gq]
+        mutable = gs.ret_kind not in ("imm", None)
+        origin = ("S", f"cached result of {gq}")
+        leaks = []
+        if mutable and g.name.startswith(READ_METHODS) and in_scope(gq):
+            leaks.append(f"{gq} is itself an entry point: each call returns the one cached {gs.ret_kind!r} object")
+        if mutable:
+            for f in eff.funcs:
+                if f is g or not in_scope(f.qualname) or not f.name.startswith(READ_METHODS):
+                    continue
+                fs = eff.summ[f.qualname]
+                if origin in fs.ret_own:
+                    leaks.append(f"{f.qualname} returns it")
+        ctx.ob("shared/cached-result-handed-out", gq, not leaks, "; ".join(leaks[:3]) or (f"result kind {gs.ret_kind!r}: " + ("immutable" if not mutable else "stays inside the library (no entry point returns it)")), g.loc)
+    ctx.extra["memoised_functions"] = n
+
+
 def shared_rules(ctx, repo, eff):
     inv = inventory(repo, eff)
     default_orig = {eff.default_origin(f, p): (f, p, d) for f, p, d in eff.defaults}
@@ -716,6 +743,12 @@ def positive_controls(ctx):
         ctx.ob("engine/positive-controls", f"probe.py {fn} (pure twin)", not evs, "silent" if not evs else f"false report: {evs[0]}", "")
     good = [e for e in peff.events.values() if e.fi.name == "good" and e.origin[0] == "S"]
     ctx.ob("engine/positive-controls", "probe.py Memo.good (memo whose key determines the value)", bool(good) and all(memo_exempt(e) for e in good), "exempted" if good else "store not seen", "")
+    co = ("S", next((f"cached result of {q}" for q in peff.cached if q.endswith("cached_bits")), "?"))
+    for fn, want in (("encode_hands_out_cached", True), ("encode_copies_cached", False)):
+        f = next((x for x in peff.funcs if x.name == fn), None)
+        got = f is not None and co in peff.summ[f.qualname].ret_own
+        ctx.ob("engine/positive-controls", f"probe.py {fn} (cached result {'handed out' if want else 'copied: pure twin'})", f is not None and got == want,
+               "as expected" if got == want else "the engine gave the wrong answer for a cached result returned to the caller", "")
     for fn, want in (("good_derived", True), ("bad_partial_key", False), ("bad_lossy_key", False)):
         evs = [e for e in peff.events.values() if e.fi.name == fn and e.origin[0] == "S"]
         got = bool(evs) and all(memo_exempt(e, prepo) for e in evs)
